@@ -211,8 +211,8 @@ pub fn run(o: &Opts) -> Report {
         return rep;
     }
     let scs = scen::all_scenarios();
-    let draws = if o.thorough() { 6 } else { 1 };
-    let pairs = if o.thorough() { 300 } else { 40 };
+    let draws = if o.thorough() { 3 } else { 1 };
+    let pairs = if o.thorough() { 100 } else { 40 };
     for &code in SUPPORTED.iter() {
         for (_, name, path) in scs.iter().filter(|s| s.0 == code) {
             let Some(schema) = scen::load(path) else { continue };
